@@ -482,6 +482,9 @@ func (env *Env) evalBinary(x *EBinary) (Val, error) {
 	if isBoolType(t) {
 		return Val{}, fmt.Errorf("arithmetic on booleans: %s", x)
 	}
+	if isStringType(t) && x.Op == "+" {
+		return Val{Typ: t, Ts: []T{env.vc.strCat(env.pc, a.Ts[0], b.Ts[0])}}, nil
+	}
 	w := bvWidth(sortOfTerm(env.vc, a, t))
 	uns := isUnsigned(t)
 	A, B := a.Ts[0], b.Ts[0]
@@ -949,6 +952,16 @@ func (env *Env) evalSliceExpr(x *ESlice) (Val, error) {
 	if v.Typ == nil {
 		return Val{}, fmt.Errorf("slice of untyped")
 	}
+	if at, ok := v.Typ.Underlying().(*types.Array); ok {
+		// slicing an addressable array (a by-value array field such as r.b[:]): the backing array is the
+		// array object itself, exactly as ssa's `slice &r.b[lo:hi]` is executed
+		a, err := env.evalLoc(x.X)
+		if err != nil {
+			return Val{}, err
+		}
+		n := BV(at.Len(), 64)
+		v = Val{Typ: types.NewSlice(at.Elem()), Ts: []T{env.vc.materialize(Val{Addr: a}), BV(0, 64), n, n}}
+	}
 	if _, ok := v.Typ.Underlying().(*types.Slice); !ok {
 		return Val{}, fmt.Errorf("slice expression on %s unsupported", env.vc.E.typeStr(v.Typ))
 	}
@@ -1025,6 +1038,27 @@ func (env *Env) evalCall(x *ECall) (Val, error) {
 		return Val{}, fmt.Errorf("unsupported call %s", x)
 	}
 	switch id.Name {
+	case "cur":
+		// cur(p): the current value of the Go variable p when p is a parameter that the body reassigns
+		// (`p = p[len(chunk):]`): a bare `p` always denotes the parameter's entry value, cur(p) the SSA phi
+		// carrying the variable (in the innermost loop header reached so far).
+		if len(x.Args) != 1 {
+			return Val{}, fmt.Errorf("cur(x)")
+		}
+		if id, ok := x.Args[0].(*EIdent); ok && env.fr != nil {
+			var phi *ssa.Phi
+			for v := range env.fr.regs {
+				if p, ok := v.(*ssa.Phi); ok && p.Comment == id.Name {
+					if phi == nil || p.Block().Index > phi.Block().Index {
+						phi = p
+					}
+				}
+			}
+			if phi != nil {
+				return env.fr.regs[phi], nil
+			}
+		}
+		return env.eval(x.Args[0])
 	case "old", "entry":
 		if len(x.Args) != 1 {
 			return Val{}, fmt.Errorf("old(e)")
